@@ -52,6 +52,7 @@ def write_replay(prop, rec, unit, extra):
         "solver": {"backend": "z3-5.1", "verdict": "sat" if rec["status"] == "failed" else rec["status"],
                    "vc": smt2_path, "time_s": rec.get("time_s")},
         "inputs": rec.get("model"),
+        "case": rec.get("sample"),
         "rerun": "./check replay %s" % os.path.relpath(path, OUT),
     }
     body.update(extra)
@@ -91,7 +92,7 @@ def check_property(prop, tier, seed, jobs=None, quiet=False):
     if not sel:
         print("no unit serves %s (not claimed)" % prop)
         return EXIT_FAULT
-    outs = FW.run_units([(m, c) for m, c, _ in sel], tier, seed, jobs)
+    outs, cached_units = FW.run_units([(m, c) for m, c, _ in sel], tier, seed, jobs)
     unit_by_name = {u.name: u for _, _, u in sel}
     unit_by_cls = {c: u for _, c, u in sel}
 
@@ -208,6 +209,7 @@ def check_property(prop, tier, seed, jobs=None, quiet=False):
             "paths": paths, "cover_counts": covers, "canaries": canaries, "canaries_refuted": canaries_ref,
             "cpython_crosschecks": cross, "bounded": bounded,
             "units": [u.name for _, _, u in sel],
+            "units_reused_from_this_trees_cache": cached_units,
             "known_findings_witnessed": known_ids,
             "undecided": undecided[:20], "unknown_obligations": sorted({r["name"] for r in unknown}),
             "samples": samples,
